@@ -784,12 +784,18 @@ kind("igmp3", dict(records=IGMP_RECORDS, extra=[b"", b"\x00\x00\x00\x00"]), ["ve
      lambda P: P.igmp.igmp)
 
 def _mk_gre (P, v, inner):
+  kw = {}
+  # the packing switches documented in the class docstring are only passed when asked for (they are class attributes)
+  if v["compute_csum"]: kw["compute_csum"] = True
+  if v["skip_csum"]: kw["skip_csum"] = True
   return _set(P.pkt.gre(type=v["type"], key=v["key"], seq=v["seq"], csum=v["csum"], strict_source_route=v["ssr"],
-                            recursion=v["recursion"], routing=v["routing"]), inner)
-kind("gre", dict(type=[0x88b5], key=[None, 0xdeadbeef, 0, 0xffffffff], seq=[None, 7, 0, 0xffffffff], csum=[None, True],
-                 ssr=[False, True], recursion=[0, 1, 7],
+                            recursion=v["recursion"], routing=v["routing"], ver=v["ver"], **kw), inner)
+# csum: None = no checksum, True = "compute it", a number = "emit this value" (0x1234 is deliberately not the right sum:
+# it must come back as given).  compute_csum / skip_csum: the two documented switches that override .csum when packing.
+kind("gre", dict(type=[0x88b5], key=[None, 0xdeadbeef, 0, 0xffffffff], seq=[None, 7, 0, 0xffffffff], csum=[None, True, 0x1234],
+                 ssr=[False, True], recursion=[0, 1, 7], ver=[0, 1, 7], compute_csum=[False, True], skip_csum=[False, True],
                  routing=[None, [b"\x00\x00\x00\x00"], [b"\x08\x00\x00\x04\x0a\x00\x00\x02", b"\x00\x00\x00\x00"]]),
-     ["type", "key", "seq", "csum", "strict_source_route", "recursion"], _mk_gre, lambda P: P.pkt.gre)
+     ["type", "key", "seq", "csum", "strict_source_route", "recursion", "ver"], _mk_gre, lambda P: P.pkt.gre)
 kind("vxlan", dict(vni=[0x123456, None, 0, 1, 0xffffff]), ["vni"],
      lambda P, v, inner: _set(P.pkt.vxlan(vni=v["vni"]), inner), lambda P: P.pkt.vxlan)
 
@@ -923,6 +929,16 @@ stack("eth/ipv4/icmp/time_exceeded/raw", [E(0x0800), I4(1), ("icmp", dict(type=[
       plens=[0, 1, 8, 23], vlan=False)
 stack("eth/ipv4/icmp/time_exceeded/ipv4/udp", [E(0x0800), I4(1), ("icmp", dict(type=[11], code=[0, 1])), ("time_exceeded", {}),
                                                 INNER4, UDP()], plens=[0, 8], vlan=False)
+# ICMP errors quoting a datagram with IP options / a TCP segment (the complete datagram here; c14's undecodable-payload phase
+# derives every truncation of the quote from these stacks, among them the RFC 792 form "IP header + 8 bytes")
+INNER4Q = lambda proto: ("ipv4", dict(protocol=[proto], srcip=["192.168.0.1"], dstip=["192.168.0.2"], id=[0x4321],
+                                      options=[b"", b"\x94\x04\x00\x00", b"\x01\x01\x01\x00"]))
+QTCP = ("tcp", dict(options=[TCP_OPTS[0], TCP_OPTS[1]]))
+for _nm, _t, _codes in (("unreach", 3, [3, 1]), ("time_exceeded", 11, [0, 1])):
+  stack("eth/ipv4/icmp/%s/ipv4-opts/udp" % _nm, [E(0x0800), I4(1), ("icmp", dict(type=[_t], code=_codes)), (_nm, {}), INNER4Q(17), UDP()],
+        plens=[0, 30], vlan=False)
+  stack("eth/ipv4/icmp/%s/ipv4-opts/tcp" % _nm, [E(0x0800), I4(1), ("icmp", dict(type=[_t], code=_codes)), (_nm, {}), INNER4Q(6), QTCP],
+        plens=[0, 30], vlan=False)
 stack("eth/ipv4/igmp", [E(0x0800), I4(2, ttl=[1]), ("igmp", {})], payload=None)
 stack("eth/ipv4/igmp3", [E(0x0800), I4(2, ttl=[1]), ("igmp3", {})], payload=None, vlan=False)
 stack("eth/ipv4/gre/raw", [E(0x0800), I4(47), ("gre", {})])
@@ -950,6 +966,12 @@ stack("eth/ipv6/icmpv6/toobig", [E(0x86dd), I6(58, ext=[[]]), ("icmpv6", dict(ty
       plens=[0, 2, 40], vlan=False)
 stack("eth/ipv6/icmpv6/timex", [E(0x86dd), I6(58, ext=[[]]), ("icmpv6", dict(type=[3], code=[0, 1])), ("timex6", {})],
       plens=[0, 2, 40], vlan=False)
+# the ICMPv6 destination-unreachable parser decodes the quoted IPv6 datagram (time exceeded / packet too big keep it as bytes)
+INNER6 = lambda nh: ("ipv6", dict(next_header_type=[nh], srcip=["2001:db8::7"], dstip=["2001:db8::8"], ext=[[]]))
+stack("eth/ipv6/icmpv6/unreach/ipv6/udp", [E(0x86dd), I6(58, ext=[[]]), ("icmpv6", dict(type=[1], code=[0, 4])), ("unreach6", {}),
+                                           INNER6(17), UDP()], plens=[0, 30], vlan=False)
+stack("eth/ipv6/icmpv6/unreach/ipv6/tcp", [E(0x86dd), I6(58, ext=[[]]), ("icmpv6", dict(type=[1], code=[0, 4])), ("unreach6", {}),
+                                           INNER6(6), QTCP], plens=[0, 30], vlan=False)
 ND6 = lambda t: [E(0x86dd), I6(58, ext=[[]], hop_limit=[255]), ("icmpv6", dict(type=[t], code=[0]))]
 stack("eth/ipv6/icmpv6/nd_rs", ND6(133) + [("nd_rs", {})], payload=None, vlan=False)
 stack("eth/ipv6/icmpv6/nd_ra", ND6(134) + [("nd_ra", {})], payload=None, vlan=False)
